@@ -27,9 +27,8 @@ func isByteSeq(t types.Type) bool {
 
 // c16Posts proves the post-conditions of parseTagAndLength on the callee and
 // returns them for use at its call sites.
-func c16Posts(c *Ctx, r *Report) map[*ssa.Function]*postCond {
+func c16Posts(c *Ctx, r *Report, rule string) map[*ssa.Function]*postCond {
 	posts := map[*ssa.Function]*postCond{}
-	pInt := c.fn("cdr/asn", "parseInt64")
 	ptl := c.fn("cdr/asn", "parseTagAndLength")
 	key := fnKey(ptl)
 	e := newRelEngine(c, ptl, posts)
@@ -79,11 +78,15 @@ func c16Posts(c *Ctx, r *Report) map[*ssa.Function]*postCond {
 			val := stripConv(st.Val)
 			// value produced by parseInt64: non-negative when at most 7 octets are accumulated (trusted lemma, premise proved)
 			if ex, ok := val.(*ssa.Extract); ok {
-				if call, ok := ex.Tuple.(*ssa.Call); ok && call.Call.StaticCallee() == pInt && ex.Index == 0 {
+				if call, ok := ex.Tuple.(*ssa.Call); ok && call.Call.StaticCallee() != nil && ex.Index == 0 && len(call.Call.Args) > 0 && isByteSeq(call.Call.Args[0].Type()) {
+					// the lemma applies to any callee whose body IS such an accumulation (today parseInt64)
+					acc := call.Call.StaticCallee()
+					okShape, why := shiftOrAccumulation(acc)
+					r.check(okShape, rule, key+"|lemma premise: the length octets are accumulated by shift-or from 0", c.rel(acc.Pos()), acc.Name()+" returns 0 shifted left by at most 8 bits and or-ed with one zero-extended octet per input octet, nothing else", "the value used as content length is not a plain unsigned shift-or accumulation ("+why+"): it can be negative for some length octets (e.g. after sign extension), so callers' range checks and progress arguments break")
 					ln := e.lenForm(call.Call.Args[0], 0)
 					okp, _ := e.prove(ln, 7, nil, call.Block())
-					r.check(okp, "C16.R1", key+"|lemma premise: long-form length has at most 7 octets", posOf(c, call), "at most 7 octets are accumulated into the int64 length, so it is non-negative (shift-or accumulation lemma)", "the number of length octets handed to parseInt64 is not bounded by 7: the accumulated int64 length may be negative")
-					if !okp {
+					r.check(okp, rule, key+"|lemma premise: long-form length has at most 7 octets", posOf(c, call), "at most 7 octets are accumulated into the int64 length, so it is non-negative (shift-or accumulation lemma)", "the number of length octets handed to "+acc.Name()+" is not bounded by 7: the accumulated int64 length may be negative")
+					if !okp || !okShape {
 						okLen = false
 					}
 					continue
@@ -95,9 +98,9 @@ func c16Posts(c *Ctx, r *Report) map[*ssa.Function]*postCond {
 			}
 		}
 	}
-	r.check(okOff1 && nret > 0, "C16.R1", key+"|post: offset >= 1", c.rel(ptl.Pos()), "every non-error return yields an offset >= 1", "a non-error return of parseTagAndLength may yield an offset < 1: callers would not advance")
-	r.check(okOff2 && nret > 0, "C16.R1", key+"|post: offset <= len(input)", c.rel(ptl.Pos()), "every non-error return yields an offset <= len(bytes)", "a non-error return of parseTagAndLength may yield an offset beyond the input: callers slice bytes[off:] and panic")
-	r.check(okLen && nst > 0, "C16.R1", key+"|post: length >= 0", c.rel(ptl.Pos()), "every value stored into the length member is >= 0", "parseTagAndLength may return a negative content length: callers' range checks (offset+length <= len) and progress arguments break")
+	r.check(okOff1 && nret > 0, rule, key+"|post: offset >= 1", c.rel(ptl.Pos()), "every non-error return yields an offset >= 1", "a non-error return of parseTagAndLength may yield an offset < 1: callers would not advance")
+	r.check(okOff2 && nret > 0, rule, key+"|post: offset <= len(input)", c.rel(ptl.Pos()), "every non-error return yields an offset <= len(bytes)", "a non-error return of parseTagAndLength may yield an offset beyond the input: callers slice bytes[off:] and panic")
+	r.check(okLen && nst > 0, rule, key+"|post: length >= 0", c.rel(ptl.Pos()), "every value stored into the length member is >= 0", "parseTagAndLength may return a negative content length: callers' range checks (offset+length <= len) and progress arguments break")
 	pc := &postCond{lows: map[string]int64{}}
 	if okOff1 && nret > 0 {
 		pc.lows["res#1"] = 1
@@ -110,6 +113,83 @@ func c16Posts(c *Ctx, r *Report) map[*ssa.Function]*postCond {
 	}
 	posts[ptl] = pc
 	return posts
+}
+
+// shiftOrAccumulation decides whether every non-error result #0 of f is the
+// value of a loop-carried accumulator that starts at a non-negative constant
+// and is updated, once per iteration, as (acc << k) | zext(octet) with k <= 8
+// - and by nothing else.  Under that shape k iterations yield a value in
+// [0, 2^(8k)), which is the premise of the trusted lemma.
+func shiftOrAccumulation(f *ssa.Function) (bool, string) {
+	if f == nil || len(f.Blocks) == 0 {
+		return false, "no body"
+	}
+	isAcc := func(v ssa.Value) (bool, string) {
+		if k, ok := v.(*ssa.Const); ok {
+			if n, isInt := constInt(k); isInt && n >= 0 {
+				return true, ""
+			}
+			return false, "negative constant"
+		}
+		ph, ok := v.(*ssa.Phi)
+		if !ok {
+			return false, "the result is " + describe(v) + ", not the loop-carried accumulator"
+		}
+		for _, ed := range ph.Edges {
+			if k, ok := ed.(*ssa.Const); ok {
+				if n, isInt := constInt(k); isInt && n >= 0 {
+					continue
+				}
+				return false, "negative start value"
+			}
+			or, ok := ed.(*ssa.BinOp)
+			if !ok || or.Op != token.OR {
+				return false, "the accumulator is updated by " + describe(ed)
+			}
+			var shl *ssa.BinOp
+			var oct ssa.Value
+			for _, pair := range [][2]ssa.Value{{or.X, or.Y}, {or.Y, or.X}} {
+				if b, ok := pair[0].(*ssa.BinOp); ok && b.Op == token.SHL {
+					shl, oct = b, pair[1]
+				}
+			}
+			if shl == nil || shl.X != ssa.Value(ph) {
+				return false, "the update is not (accumulator << k) | octet"
+			}
+			if n, isInt := constInt(shl.Y); !isInt || n < 0 || n > 8 {
+				return false, "the shift distance is not a constant <= 8"
+			}
+			cv, ok := oct.(*ssa.Convert)
+			if !ok {
+				return false, "the or-ed operand is not a zero-extended octet"
+			}
+			if bt, ok := cv.X.Type().Underlying().(*types.Basic); !ok || bt.Kind() != types.Uint8 {
+				return false, "the or-ed operand is not a zero-extended octet"
+			}
+		}
+		return true, ""
+	}
+	n := 0
+	for _, ri := range returnsOf(f) {
+		if len(ri.Vals) < 1 {
+			continue
+		}
+		if len(ri.Vals) >= 2 {
+			if call, ok := ri.Vals[len(ri.Vals)-1].(*ssa.Call); ok {
+				if obj := calleeObj(&call.Call); obj != nil && (isFunc(obj, "fmt", "Errorf") || isFunc(obj, "errors", "New")) {
+					continue
+				}
+			}
+		}
+		n++
+		if ok, why := isAcc(ri.Vals[0]); !ok {
+			return false, why
+		}
+	}
+	if n == 0 {
+		return false, "no non-error return"
+	}
+	return true, ""
 }
 
 func leavesOrSelf(v ssa.Value, at ssa.Instruction) []phiLeaf {
@@ -129,7 +209,7 @@ func checkC16(c *Ctx, r *Report) {
 	r.rule("C16.R4", "primitive parser errors are tested on their own result", 4)
 	r.rule("C16.R5", "reflect Set in the special-type cases is type-correct", 3)
 
-	posts := c16Posts(c, r)
+	posts := c16Posts(c, r, "C16.R1")
 	decodeFns := []string{"parseTagAndLength", "parseBitString", "parseInt64", "ParseField", "UnmarshalWithParams", "Unmarshal"}
 	nsites := 0
 	for _, name := range decodeFns {
